@@ -366,6 +366,100 @@ theorem executing_implies_enabled_all_faulted_histories (env : Env) (reqs : List
   | nil => exact fun w h => h
   | cons r rest ih => exact fun w h => ih _ (handleF_inv env r.2.1 r.2.2 (beginReq w none) r.1 h)
 
+/-! ### What a failed transaction leaves behind (the correct form of "the first k-1 effects")
+
+"A request whose k-th transaction fails leaves exactly the effects of the first k-1" is FALSE of the code
+(`fault_in_rename_keeps_both_ids`, `fault_in_association_still_stops_the_task`: some errors are only logged and the
+handler goes on). What holds, per handler: **the failed transaction loses exactly its own effect; whether the later
+steps still happen depends on the call that failed** — spelled out below for every position `k` (transactions are
+counted from the start of the request: `w.ntx = 0`, which `beginReq` establishes). -/
+
+/-- Bridge: once the request passed validation, `handleF` on a create is `createCommitF` … -/
+theorem handleF_create_commit (env : Env) (fail : List String) (fault : Option Nat) (w : World) (id : String) (r : TaskReq)
+    (script : String) (templated : Bool) (t : Task) (hn : w.store.tasks id = none)
+    (hs : createScript w.store r = some (script, templated)) (hv : createValidate env r script = .ok t) :
+    handleF env fail fault w (.create id r) =
+      ((createCommitF env fail ⟨w, fault, false⟩ id t templated).1.w, (createCommitF env fail ⟨w, fault, false⟩ id t templated).2) := by
+  simp only [handleF, createTaskF, hn, hs, hv, Option.isSome_none, Bool.false_eq_true, if_false]
+
+/-- … and on an update `updateCommitF`. -/
+theorem handleF_update_commit (env : Env) (fail : List String) (fault : Option Nat) (w : World) (id : String) (r : TaskReq)
+    (orig upd : Task) (script m : String) (ho : w.store.tasks id = some orig)
+    (hs : updateScript env w.store orig r = some (script, m)) (hv : updateValidate env orig r script m = .ok upd) :
+    handleF env fail fault w (.update id r) =
+      ((updateCommitF env fail ⟨w, fault, false⟩ id (if r.newId ≠ "" then r.newId else id) orig upd m).1.w,
+       (updateCommitF env fail ⟨w, fault, false⟩ id (if r.newId ≠ "" then r.newId else id) orig upd m).2) := by
+  simp only [handleF, updateTaskF, ho, hs, hv]
+
+/-- **Create under a fault.** Transaction 1 = tasks.Create, transaction 2 (templated task) = AssociateTask, all later
+ones are saveLastError writes inside startTask.
+k = 1: nothing stored, 500. k = 2 on a templated task: the task IS stored but neither associated nor started, 500
+(here "the first k-1 effects" is right). Any other k: exactly the fault-free outcome — view and answer. -/
+theorem create_under_fault (env : Env) (fail : List String) (w : World) (id : String) (t : Task) (templated : Bool)
+    (k : Nat) (h0 : w.ntx = 0) (hn : w.store.tasks id = none) :
+    (k = 1 → (createCommitF env fail ⟨w, some k, false⟩ id t templated).1.w.view = w.view ∧
+             (createCommitF env fail ⟨w, some k, false⟩ id t templated).2 = .fail) ∧
+    (k = 2 → templated = true →
+             (createCommitF env fail ⟨w, some k, false⟩ id t templated).1.w.view = w.view.put id t ∧
+             (createCommitF env fail ⟨w, some k, false⟩ id t templated).2 = .fail) ∧
+    (k ≠ 1 → ¬ (k = 2 ∧ templated = true) →
+             (createCommitF env fail ⟨w, some k, false⟩ id t templated).1.w.view =
+               (createCommit Variant.fixed env fail w id t templated).1.view ∧
+             (createCommitF env fail ⟨w, some k, false⟩ id t templated).2 =
+               (createCommit Variant.fixed env fail w id t templated).2) :=
+  createCommitF_fault env fail w id t templated k h0 hn
+
+/-- **Delete under a fault.** Transaction 1 = snapshots.Delete (error ignored), 2 = DisassociateTask for a templated
+task (error logged), last = tasks.Delete (error answered 500). For EVERY k the view is `delViewF`: the association is
+dropped unless k hit DisassociateTask, the task is stopped whenever it was enabled, the record is removed unless k hit
+tasks.Delete — so after a failed DisassociateTask the record is gone but a stale association stays (200), and after a
+failed tasks.Delete the task is still shown as enabled but no longer executes (500). -/
+theorem delete_under_fault (w : World) (id : String) (t : Task) (k : Nat) (h0 : w.ntx = 0) (ht : w.store.tasks id = some t) :
+    (deleteTaskF ⟨w, some k, false⟩ id).1.w.view = delViewF w.view id t k ∧
+    (deleteTaskF ⟨w, some k, false⟩ id).2 = (if k = (if t.tmpl ≠ "" then 3 else 2) then .fail else .ok) ∧
+    (k ≠ 2 → k ≠ 3 → delViewF w.view id t k = (deleteTask w id).1.view) :=
+  ⟨(deleteTaskF_fault w id t k h0 ht).1, (deleteTaskF_fault w id t k h0 ht).2,
+   fun h2 h3 => delViewF_nofault w id t k ht h2 h3⟩
+
+/-- **Update under a fault.** Transaction 1 = tasks.Create(new) / tasks.Replace; for a rename 2 = tasks.Delete(old)
+(error only logged); then the association writes (answered 500 after the running state was adjusted); the rest are
+saveLastError writes.
+k = 1: nothing changes, 500. k ≠ 1: the executing set is EXACTLY the one the fault-free update leaves, the new record
+is stored, the old ID of a rename disappears unless k = 2 (then both IDs stay stored — the old one stopped), templates
+are untouched, and the answer is the fault-free one or 500. -/
+theorem update_under_fault (env : Env) (fail : List String) (w : World) (id newId : String) (orig upd : Task)
+    (k : Nat) (h0 : w.ntx = 0) (ho : w.store.tasks id = some orig) (hfree : id ≠ newId → w.store.tasks newId = none) :
+    (k = 1 → (updateCommitF env fail ⟨w, some k, false⟩ id newId orig upd upd.tmpl).1.w.view = w.view ∧
+             (updateCommitF env fail ⟨w, some k, false⟩ id newId orig upd upd.tmpl).2 = .fail) ∧
+    (k ≠ 1 →
+      (updateCommitF env fail ⟨w, some k, false⟩ id newId orig upd upd.tmpl).1.w.exec =
+        (updateCommit Variant.fixed env fail w id newId orig upd (needsReassoc Variant.fixed id newId orig upd.tmpl)).1.exec ∧
+      (updateCommitF env fail ⟨w, some k, false⟩ id newId orig upd upd.tmpl).1.w.store.tasks =
+        (fun i => if i = newId then some upd else if i = id then (if k = 2 then some orig else none) else w.store.tasks i) ∧
+      (updateCommitF env fail ⟨w, some k, false⟩ id newId orig upd upd.tmpl).1.w.store.tmpls = w.store.tmpls ∧
+      ((updateCommitF env fail ⟨w, some k, false⟩ id newId orig upd upd.tmpl).2 = .fail ∨
+       (updateCommitF env fail ⟨w, some k, false⟩ id newId orig upd upd.tmpl).2 =
+        (updateCommit Variant.fixed env fail w id newId orig upd (needsReassoc Variant.fixed id newId orig upd.tmpl)).2)) := by
+  obtain ⟨hA, hB⟩ := updateCommitF_fault env fail w id newId orig upd upd.tmpl k h0 ho hfree
+  have hsd : (storeDefinition w id newId upd).2 = true := by
+    rw [storeDefinition_ok w id newId upd orig ho]
+    split
+    · rename_i hne; rw [hfree hne]; rfl
+    · rfl
+  obtain ⟨c1, c2⟩ := updateCommit_closed env fail w id newId orig upd ho hsd
+  refine ⟨hA, fun h1 => ?_⟩
+  obtain ⟨e1, e2, e3, e4⟩ := hB h1
+  have c2e := congrArg View.exec c2
+  simp only [view_exec] at c2e
+  exact ⟨by rw [e1, c2e], e2, e3, by rw [c1]; exact e4⟩
+
+/-- **Template create / delete under a fault**: their single transaction fails ⇒ nothing changes, not answered 2xx. -/
+theorem template_create_delete_under_fault (env : Env) (w : World) (id s : String) (h0 : w.ntx = 0) :
+    ((createTemplateF env ⟨w, some 1, false⟩ id s).1.w.view = w.view ∧
+     (createTemplateF env ⟨w, some 1, false⟩ id s).2 ≠ .ok) ∧
+    ((deleteTemplateF ⟨w, some 1, false⟩ id).1.w.view = w.view ∧ (deleteTemplateF ⟨w, some 1, false⟩ id).2 = .fail) :=
+  templateF_fault env w id s h0
+
 /-! ### Non-vacuity -/
 
 /-- The hypothesis of `executing_implies_enabled_under_faults` is met by a reachable state with an executing,
@@ -374,6 +468,18 @@ change the store and the executing set. -/
 example : ExecInv (beginReq (run Variant.fixed demoEnv faultBase) none) ∧
     (run Variant.fixed demoEnv faultBase).exec "a" = true :=
   ⟨executing_implies_enabled_all_histories Variant.fixed demoEnv faultBase, by decide⟩
+
+/-- The hypotheses of the `…_under_fault` theorems are met on the reachable state `faultBase` (after `beginReq`:
+`ntx = 0`; `b` is free, `a` is stored, templated and enabled), and the faulted outcomes there differ from the
+fault-free ones. -/
+example : (beginReq (run Variant.fixed demoEnv faultBase) none).ntx = 0 ∧
+    (beginReq (run Variant.fixed demoEnv faultBase) none).store.tasks "b" = none ∧
+    ((beginReq (run Variant.fixed demoEnv faultBase) none).store.tasks "a").map (fun t => (t.tmpl, t.enabled)) = some ("T", true) ∧
+    (deleteTaskF ⟨beginReq (run Variant.fixed demoEnv faultBase) none, some 2, false⟩ "a").2 = .ok ∧
+    (deleteTaskF ⟨beginReq (run Variant.fixed demoEnv faultBase) none, some 2, false⟩ "a").1.w.store.assoc "T" "a" = true ∧
+    (deleteTaskF ⟨beginReq (run Variant.fixed demoEnv faultBase) none, some 3, false⟩ "a").2 = .fail ∧
+    (deleteTaskF ⟨beginReq (run Variant.fixed demoEnv faultBase) none, some 3, false⟩ "a").1.w.exec "a" = false := by
+  decide
 
 /-- A rejected request with a non-trivial state: the hypothesis of `rejected_request_leaves_no_trace` is met. -/
 example : (handle Variant.fixed demoEnv [] (run Variant.fixed demoEnv (hijack.take 1))
